@@ -2,6 +2,7 @@ import Verif.Lemmas.C05Sound
 import Verif.Model.Lexer
 import Verif.Lemmas.C05Stages
 import Verif.Lemmas.C05Expr
+import Verif.Lemmas.C05Layout
 import Verif.Gen.Tokens
 import Verif.Gen.Static
 import Verif.Gen.Prec
@@ -225,5 +226,39 @@ private def exE : Expr :=
 example : canonE exRe Gen.isLogic exL exE = true := by decide +kernel
 example : (parse exRe Gen.prec Gen.isLogic (exprToks exL exE)).isSome = true := by
   rw [C05_parse_roundtrip exRe Gen.prec Gen.isLogic exL exE (by decide +kernel)]; rfl
+
+/-! ## text level: the lexer model and the independence of layout -/
+
+/-- **C05 (layout)**: a token list written in any admissible layout — any white space and `#`, `//`,
+`/* */` comments between (and in front of) the tokens, strings in any of three quoting styles, numbers in
+any spelling that lexes to the token, nothing at all between tokens that cannot fuse — is read back by the
+lexer as exactly that token list. -/
+theorem C05_tokenize_render (lead : Layout.Gap) (ps : List Layout.Piece)
+    (hl : lead.all Layout.GapItem.ok = true) (hok : Layout.piecesOK ps = true) (hsep : Layout.Sep ps = true) :
+    Lexer.tokenize (Layout.gapBytes lead ++ Layout.render ps) = .ok (ps.map (·.tok)) :=
+  C05Layout.tokenize_render lead ps hl hok hsep
+
+/-- **C05 (independence of white space, comments and quoting style)**: two writings of the same tokens
+lex alike. -/
+theorem C05_layout_independent (lead₁ lead₂ : Layout.Gap) (ps₁ ps₂ : List Layout.Piece)
+    (h₁ : lead₁.all Layout.GapItem.ok = true ∧ Layout.piecesOK ps₁ = true ∧ Layout.Sep ps₁ = true)
+    (h₂ : lead₂.all Layout.GapItem.ok = true ∧ Layout.piecesOK ps₂ = true ∧ Layout.Sep ps₂ = true)
+    (htoks : ps₁.map (·.tok) = ps₂.map (·.tok)) :
+    Lexer.tokenize (Layout.gapBytes lead₁ ++ Layout.render ps₁) = Lexer.tokenize (Layout.gapBytes lead₂ ++ Layout.render ps₂) :=
+  C05Layout.layout_independent lead₁ lead₂ ps₁ ps₂ h₁ h₂ htoks
+
+/-- **C05 (text to tree)**: every text that writes the canonical tokens of a tree — in whatever layout —
+is parsed (lexer model, then parser model) into exactly that tree. -/
+theorem C05_text_roundtrip (re : ReEnv) (prec : Metric.BinOp → Nat) (isLogic : Metric.BinOp → Bool) (L : Lits)
+    (e : Expr) (hc : canonE re isLogic L e = true)
+    (lead : Layout.Gap) (ps : List Layout.Piece)
+    (hl : lead.all Layout.GapItem.ok = true) (hok : Layout.piecesOK ps = true) (hsep : Layout.Sep ps = true)
+    (htoks : ps.map (·.tok) = exprToks L e) :
+    Layout.parseText re prec isLogic (Layout.gapBytes lead ++ Layout.render ps) = .ok e := by
+  have ht := C05_tokenize_render lead ps hl hok hsep
+  have hp := C05_parse_roundtrip re prec isLogic L e hc
+  unfold Layout.parseText
+  rw [ht, htoks]
+  simp only [hp]
 
 end C05
